@@ -100,6 +100,10 @@ func (g *coreGen) intExpr(d int) Node {
 		}
 		return cn("un", "op", "+", "e", map[string]any(g.intExpr(d-1)))
 	case 8:
+		if len(g.fns) > 1 && g.r.Intn(2) == 0 {
+			// two calls in one expression: the left value is what the first call returned, whatever the second does
+			return cn("bin", "op", g.pick("+", "-", "*"), "l", map[string]any(g.call(d)), "r", map[string]any(g.call(d)))
+		}
 		if len(g.fns) > 0 {
 			return g.call(d)
 		}
@@ -482,7 +486,8 @@ func (g *coreGen) assignTarget() string {
 		if g.recursive {
 			return "a"
 		}
-		return g.pick("l0"+g.self, "l1"+g.self, "a")
+		// also globals: an assignment to an existing global persists after the call
+		return g.pick("l0"+g.self, "l1"+g.self, "a", "g0", "g1")
 	}
 	return g.pick("g0", "g1", "g2", "s0r")
 }
@@ -624,6 +629,10 @@ func (g *coreGen) function(name string) Node {
 	if recursive {
 		rec := cn("call", "f", name, "args", []any{map[string]any(cn("bin", "op", "-", "l", map[string]any(cn("var", "n", "a")), "r", map[string]any(g.num(1)))), map[string]any(g.num(g.r.Intn(4)))})
 		stmts = append(stmts, map[string]any(cn("return", "e", map[string]any(cn("bin", "op", g.pick("+", "*", "-"), "l", map[string]any(g.intExpr(1)), "r", map[string]any(rec))))))
+	} else if g.r.Intn(3) == 0 {
+		// the value of a global at the time of the return (not the variable itself: a later assignment
+		// to it, e.g. by the next call in the same expression, does not change what was returned)
+		stmts = append(stmts, map[string]any(cn("return", "e", map[string]any(cn("var", "n", g.pick("g0", "g1"))))))
 	} else if g.r.Intn(3) > 0 {
 		stmts = append(stmts, map[string]any(cn("return", "e", map[string]any(g.anyExpr(2)))))
 	}
